@@ -264,6 +264,10 @@ def _sem_seq(node, env, prefer):
         if sqlm and not node[2]:
             r = t
     elif op == "slice":
+        if node[3] == 0 and not isinstance(node[3], bool) and node[2] in (0, None):
+            r = Tab([relmodel.Slot(z3.BoolVal(False), (z3.IntVal(0) if t.ordered else None), s_.v) for s_ in t.slots], t.cols, t.ordered)
+            r.det, r.dropped, r.sliced = t.det, t.dropped, True
+            return r
         if not t.ordered:
             if not env.count_mode:
                 raise Skip("indeterminate: slice of an unordered relation")
